@@ -23,8 +23,7 @@ Definition opt_eqb (a b : option bool) : bool :=
 def prove(ctx):
     with ctx.coq_lock():
         gen_games.ensure_gr1(ctx)
-        ctx.prove('GenProofs/InitProofs.v')
-        ctx.prove('Properties/C03.v')
+        ctx.prove_with_deps('Properties/C03.v')
     ctx.trusted.append(
         'translator tie T: omega/games/gr1.py is_realizable, _make_init '
         '(assert -> None; print(msg) dropped)')
@@ -32,6 +31,7 @@ def prove(ctx):
 
 def rand_inits(rng, ar):
     """EnvInit over constants+env variables only; SysInit over states."""
+    dens_e = rng.choice([0.3, 0.6, 0.8])
     if rng.random() < 0.3:
         EI = [True] * ar.ns
     else:
@@ -39,12 +39,14 @@ def rand_inits(rng, ar):
         EI = []
         for (c, x, y) in ar.states():
             if (c, x) not in col:
-                col[(c, x)] = rng.random() < 0.6
+                col[(c, x)] = rng.random() < dens_e
             EI.append(col[(c, x)])
     if rng.random() < 0.3:
         SI = [True] * ar.ns
     else:
-        SI = games.rand_table1(rng, ar, rng.choice([0.4, 0.7, 0.9]))
+        # sparse SysInit matters: the two causality forms differ where
+        # EnvInit and SysInit both fail
+        SI = games.rand_table1(rng, ar, rng.choice([0.15, 0.4, 0.7, 0.9]))
     return EI, SI
 
 
@@ -57,7 +59,10 @@ def run_impl(g, wins):
         for q in QINITS:
             for plus_one in (False, True):
                 aut = gr1games.load(g)
-                aut.qinit, aut.plus_one, aut.moore = q, plus_one, False
+                # the verdict must not depend on Moore/Mealy: alternate it
+                aut.qinit, aut.plus_one = q, plus_one
+                aut.moore = bool((wi + len(q) + plus_one + g['ar'].ns) % 2) \
+                    if q != QINITS[2] else (not plus_one)
                 win = ar.bdd1(wtab)
                 internal = ar.bdd1(g['II'])
                 try:
